@@ -30,6 +30,8 @@ struct Probe {
     /// different sides of the epoch and there is a fraction
     f13: &'static str,
     unique_civil: bool,
+    /// UTC offsets of every instant of the zone that reads this civil time
+    civil_offsets: Vec<i64>,
 }
 
 /// Build the model view of `ns` in `tz`. `None` when jiff's civil datetime
@@ -61,12 +63,15 @@ fn probe(ns: i128, tz: &TimeZone, name: Option<&str>, model: Option<&refmodel::t
     v.unix = Some(sec);
     v.iana = name.map(|s| s.to_string());
     let mut unique = true;
+    let mut civil_offsets = vec![off];
     if let Some(z) = model {
         let info = z.info_at(sec);
         if info.utoff as i64 == off {
             v.abbr = Some(info.abbrev.clone());
         }
-        unique = z.preimages(civ).len() == 1;
+        let pre = z.preimages(civ);
+        unique = pre.len() == 1;
+        civil_offsets.extend(pre.iter().map(|&(t, _)| civ - t));
     }
     Some(Probe { v, ts, zdt, neg_fraction: ns < 0 && frac != 0, f13: if frac != 0 && day < 0 && ns >= 0 {
             ":civil<1970,fraction,instant>=epoch(F13-class)"
@@ -76,6 +81,7 @@ fn probe(ns: i128, tz: &TimeZone, name: Option<&str>, model: Option<&refmodel::t
             ""
         },
         unique_civil: unique,
+        civil_offsets,
     })
 }
 
@@ -102,6 +108,45 @@ fn fmt_value(r: &Report, section: &str, f: &Fmt, p: &Probe, case: &str, class: &
     }
 }
 
+/// Unix seconds together with an offset: the text names the instant and the
+/// offset without any contradiction, so both must come back.
+fn unix_offset_roundtrip(r: &Report, section: &str, p: &Probe, fs: &Fmts, case: &str) {
+    for (f, s_first) in &fs.rt_unix {
+        let Some(text) = fmt_value(r, section, f, p, case, if p.neg_fraction { ":negative-timestamp-with-fraction" } else { "" }) else { continue };
+        let off = p.v.off.unwrap_or(0);
+        let cls = if off == 0 {
+            String::new()
+        } else if *s_first {
+            ":%s-before-offset,offset!=0".to_string()
+        } else {
+            ":%s-after-offset,offset!=0".to_string()
+        };
+        match guard(|| (Zoned::strptime(&f.text, &text), Timestamp::strptime(&f.text, &text))) {
+            Err(pm) => r.viol(section, &format!("Zoned::strptime[{}]/{}", f.text, panic_sig(&pm)), format!("{} {}", f.text, case), format!("text {:?}: {}", text, pm)),
+            Ok((z, t)) => {
+                match z {
+                    Err(e) => r.viol(section, &format!("Zoned::strptime[{}]/rejects-formatted-text{}", f.text, cls), format!("{} {}", f.text, case), format!("text {:?}: {}", text, e)),
+                    Ok(z) => {
+                        if z.timestamp().as_nanosecond() != p.ts.as_nanosecond() {
+                            r.viol(section, &format!("Zoned::strptime[{}]/roundtrip-instant{}", f.text, cls), format!("{} {}", f.text, case), format!("text {:?} parsed {} ({:?}) original {} ({:?})", text, z, z.timestamp(), p.zdt, p.ts));
+                        } else if z.offset() != p.zdt.offset() {
+                            r.viol(section, &format!("Zoned::strptime[{}]/roundtrip-offset{}", f.text, cls), format!("{} {}", f.text, case), format!("text {:?} parsed {} original {}", text, z, p.zdt));
+                        }
+                    }
+                }
+                match t {
+                    Err(e) => r.viol(section, &format!("Timestamp::strptime[{}]/rejects-formatted-text{}", f.text, cls), format!("{} {}", f.text, case), format!("text {:?}: {}", text, e)),
+                    Ok(t) => {
+                        if t.as_nanosecond() != p.ts.as_nanosecond() {
+                            r.viol(section, &format!("Timestamp::strptime[{}]/roundtrip-instant{}", f.text, cls), format!("{} {}", f.text, case), format!("text {:?} parsed {:?} original {:?}", text, t, p.ts));
+                        }
+                    }
+                }
+            }
+        }
+    }
+}
+
 fn check_instant(r: &Report, section: &str, p: &Probe, fs: &Fmts, name: &str, with_names: bool) {
     let case = format!("{}[{}]", vf::conv::fmt_ns(p.ts.as_nanosecond()), name);
     // civil fields, offset shapes, identifier, and (separately, because of its
@@ -112,6 +157,58 @@ fn check_instant(r: &Report, section: &str, p: &Probe, fs: &Fmts, name: &str, wi
         fmt_value(r, section, &fs.abbr, p, &case, "");
     }
     let class = p.f13;
+    // BrokenDownTime::from(&Zoned): every getter against the model
+    match guard(|| {
+        let tm = jiff::fmt::strtime::BrokenDownTime::from(&p.zdt);
+        (
+            (tm.year().map(|x| x as i64), tm.month().map(|x| x as i64), tm.day().map(|x| x as i64)),
+            (tm.hour().map(|x| x as i64), tm.minute().map(|x| x as i64), tm.second().map(|x| x as i64), tm.subsec_nanosecond().map(|x| x as i64)),
+            tm.offset().map(|o| o.seconds() as i64),
+            tm.iana_time_zone().map(|s| s.to_string()),
+            tm.meridiem().map(|m| m == jiff::fmt::strtime::Meridiem::PM),
+            (tm.weekday().is_none(), tm.day_of_year().is_none(), tm.iso_week_year().is_none(), tm.iso_week().is_none(), tm.sunday_based_week().is_none(), tm.monday_based_week().is_none()),
+            (tm.to_datetime().ok(), tm.to_timestamp().ok(), tm.to_zoned().ok().map(|z| (z.timestamp(), z.offset()))),
+        )
+    }) {
+        Err(pm) => r.viol(section, &format!("BrokenDownTime::from(&Zoned)/{}", panic_sig(&pm)), case.clone(), pm),
+        Ok(g) => {
+            let want = (
+                (Some(p.v.y), Some(p.v.m), Some(p.v.d)),
+                (Some(p.v.h), Some(p.v.mi), Some(p.v.s), Some(p.v.ns)),
+                p.v.off,
+                p.v.iana.clone(),
+                Some(p.v.h >= 12),
+                (true, true, true, true, true, true),
+                (Some(p.zdt.datetime()), Some(p.ts), Some((p.ts, p.zdt.offset()))),
+            );
+            if g != want {
+                r.viol(section, &format!("BrokenDownTime::from(&Zoned)/getters{}", class), case.clone(), format!("jiff {:?} model {:?}", g, want));
+            }
+        }
+    }
+    unix_offset_roundtrip(r, section, p, fs, &case);
+    // an offset that contradicts the zone: no instant of the zone reads this
+    // civil time at that offset ("OffsetConflict::Reject is used to detect any
+    // inconsistency between the offset and the time zone")
+    if with_names {
+        let off = p.v.off.unwrap_or(0);
+        for delta in [3600i64, -3600, 60, -1] {
+            let wrong = off + delta;
+            if wrong.abs() > 93_599 || p.civil_offsets.contains(&wrong) {
+                continue;
+            }
+            let (sg, a) = (if wrong < 0 { '-' } else { '+' }, wrong.abs());
+            let text = format!("{:04}-{:02}-{:02} {:02}:{:02}:{:02}.{:09} {}{:02}:{:02}:{:02} {}", p.v.y, p.v.m, p.v.d, p.v.h, p.v.mi, p.v.s, p.v.ns, sg, a / 3600, (a / 60) % 60, a % 60, name);
+            let fmt = "%Y-%m-%d %H:%M:%S.%f %:z %Q";
+            match guard(|| Zoned::strptime(fmt, &text)) {
+                Err(pm) => r.viol(section, &format!("Zoned::strptime[{}]/{}", fmt, panic_sig(&pm)), format!("{} {:?}", fmt, text), pm),
+                Ok(Err(_)) => {
+                    fs.n_conflict_rejected.fetch_add(1, Relaxed);
+                }
+                Ok(Ok(z)) => r.viol(section, &format!("Zoned::strptime[{}]/contradiction-accepted:offset-vs-zone", fmt), format!("{} {:?}", fmt, text), format!("accepted as {}", z)),
+            }
+        }
+    }
     // print -> parse with the same format
     for f in &fs.rt_offset {
         let Some(text) = fmt_value(r, section, f, p, &case, "") else { continue };
@@ -132,6 +229,26 @@ fn check_instant(r: &Report, section: &str, p: &Probe, fs: &Fmts, name: &str, wi
                         if t != p.ts || t.as_nanosecond() != p.ts.as_nanosecond() {
                             r.viol(section, &rt_sig("Timestamp", &f.text, class), format!("{} {}", f.text, case), format!("text {:?} parsed {:?} original {:?}", text, t, p.ts));
                         }
+                    }
+                }
+            }
+        }
+    }
+    if with_names && !p.unique_civil && p.civil_offsets.len() >= 2 {
+        // documented: with an identifier and no offset an ambiguous civil time
+        // resolves with the compatible strategy; in a fold that is the earlier
+        // instant, i.e. the one with the largest offset
+        let f = &fs.rt_named.last().unwrap().0;
+        if let Some(text) = fmt_value(r, section, f, p, &case, "") {
+            let civ = p.v.unix.unwrap() + p.v.off.unwrap();
+            let want = (civ - p.civil_offsets.iter().max().unwrap()) as i128 * NS + p.v.ns as i128;
+            fs.n_fold.fetch_add(1, Relaxed);
+            match guard(|| Zoned::strptime(&f.text, &text)) {
+                Err(pm) => r.viol(section, &format!("Zoned::strptime[{}]/{}", f.text, panic_sig(&pm)), format!("{} {}", f.text, case), pm),
+                Ok(Err(e)) => r.viol(section, &format!("Zoned::strptime[{}]/rejects-formatted-text:fold", f.text), format!("{} {}", f.text, case), format!("text {:?}: {}", text, e)),
+                Ok(Ok(z)) => {
+                    if z.timestamp().as_nanosecond() != want {
+                        r.viol(section, &format!("Zoned::strptime[{}]/fold-not-compatible", f.text), format!("{} {}", f.text, case), format!("text {:?} parsed {} expected the earlier instant {}", text, z, vf::conv::fmt_ns(want)));
                     }
                 }
             }
@@ -187,6 +304,10 @@ struct Fmts {
     abbr: Fmt,
     rt_offset: Vec<Fmt>,
     rt_named: Vec<(Fmt, bool)>,
+    /// (format, %s comes before the offset)
+    rt_unix: Vec<(Fmt, bool)>,
+    n_conflict_rejected: AtomicU64,
+    n_fold: AtomicU64,
 }
 
 pub fn run(r: &Report) {
@@ -196,6 +317,9 @@ pub fn run(r: &Report) {
         abbr: Fmt::new("%Z|%^Z|%#Z"),
         rt_offset: vec![Fmt::new("%Y-%m-%dT%H:%M:%S%.f%z"), Fmt::new("%a, %d %b %Y %H:%M:%S.%f %:z")],
         rt_named: vec![(Fmt::new("%Y-%m-%d %H:%M:%S%.f %:z %Q"), false), (Fmt::new("%F %T%.f %z[%:Q]"), false), (Fmt::new("%F %T%.f %:Q"), true)],
+        rt_unix: vec![(Fmt::new("%s%.f %z"), true), (Fmt::new("%:z %s%.f"), false)],
+        n_conflict_rejected: AtomicU64::new(0),
+        n_fold: AtomicU64::new(0),
     };
 
     r.section("zoned_specifiers", || {
@@ -244,7 +368,11 @@ pub fn run(r: &Report) {
         r.outcome("zoned_specifiers.abbreviation_compared", n_abbr.load(Relaxed));
         r.outcome("zoned_specifiers.negative_fractional_instants", n_negfrac.load(Relaxed));
         r.outcome("zoned_specifiers.skipped_civil_differs_from_R-cal(C02 domain)", skipped.load(Relaxed));
+        r.outcome("zoned_specifiers.fold_readings_parsed_by_identifier", fs.n_fold.load(Relaxed));
+        r.require(fs.n_fold.load(Relaxed) > 100, "civil times inside folds parsed through %Q alone");
+        r.outcome("zoned_specifiers.offset_contradicting_zone_rejected", fs.n_conflict_rejected.load(Relaxed));
         r.require(n > 1000 && n_abbr.load(Relaxed) > 0, "zone probes formatted, abbreviations compared");
+        r.require(fs.n_conflict_rejected.load(Relaxed) > n, "offsets contradicting the zone were refused");
     });
 
     r.section("fixed_offsets", || {
@@ -266,6 +394,7 @@ pub fn run(r: &Report) {
             }
             let case = format!("offset {}s", o);
             fmt_value(r, "fixed_offsets", &f_shapes, &p, &case, "");
+            unix_offset_roundtrip(r, "fixed_offsets", &p, &fs, &case);
             for f in &rts {
                 let Some(text) = fmt_value(r, "fixed_offsets", f, &p, &case, "") else { continue };
                 match guard(|| Zoned::strptime(&f.text, &text)) {
